@@ -38,6 +38,11 @@ CHECKS.update({
             "All 4^6 value tables (x row orders, prediction types, request forms) through the real constant model against a 10-line reference; a closed-form catalogue of LME cohorts through the real fit/personalize/estimate with the MixedLM fit captured: random effects against statsmodels' own and against (Z'Z + Psi^-1)^-1 Z'r, trajectories affine in age.",
             "LME cohorts are a finite catalogue; age-normalisation constants are taken as stored; optimiser failures of statsmodels itself are expected outcomes."),
 })
+CHECKS.update({
+    "C14": ("exploration", "exhaustive enumeration of small tables (all missing patterns, all row permutations, identifier types, layouts) and of a malformation catalogue through the real readers against a pure-Python reference",
+            "Every valid table of the bounded space (<= 3 individuals x <= 3 visits x 2 features, all NaN patterns, every row permutation, four identifier types, visit / event / joint / covariate layouts, column and index forms) is ingested by the real readers and compared with a dict-based reference (order, sorting, alignment, mask, counts, round trip through to_pandas, caller's table untouched); every malformation of the property's families at every row position must raise LeaspyDataInputError.",
+            "Tables beyond the stated sizes are not covered; rejection is demanded only for the malformation families the property lists."),
+})
 NOT_APPLICABLE = {}
 
 def main():
